@@ -211,6 +211,41 @@ def fn_body(repo, relfile, fn_name, occurrence=0):
 
 
 def _strip_comments_only(src):
+    return strip_verif_items(_strip_comments_raw(src))
+
+
+def strip_verif_items(code):
+    """drop every item / statement guarded by `#[cfg(hydro_project_hydro_verif)]` (add-only hooks of other
+    checks must not disturb the pinned text)"""
+    attr = re.compile(r"#\[cfg\(hydro_project_hydro_verif\)\]")
+    out, i = [], 0
+    while True:
+        m = attr.search(code, i)
+        if not m:
+            out.append(code[i:])
+            break
+        out.append(code[i:m.start()])
+        j, depth = m.end(), 0
+        while j < len(code):
+            c = code[j]
+            if c in "{([":
+                depth += 1
+            elif c in "})]":
+                depth -= 1
+                if depth == 0 and c == "}":
+                    j += 1
+                    break
+                if depth < 0:
+                    break
+            elif c == ";" and depth == 0:
+                j += 1
+                break
+            j += 1
+        i = j
+    return "".join(out)
+
+
+def _strip_comments_raw(src):
     out = []
     i, n = 0, len(src)
     while i < n:
